@@ -29,6 +29,12 @@ func init() {
 
 func runC09(e *Env) {
 	ruleC09Layout(e)
+	// the calendar guard compares against New(...): New must be the UTC construction, FromTime the plain decoding
+	ruleNewDeleg(e, "C09.new")
+	if a := newDateAbs(e); a != nil {
+		ruleFromTime(e, "C09.new", a)
+	}
+	e.S.Floor("C09.new", 7)
 	dp := e.Fn("C09.valid", "date", "DefaultParser")
 	if dp != nil {
 		e.Flow(func(c *flow.Ctx) { c.RuleCalendarParser(dp) })
